@@ -504,6 +504,25 @@ class NameConverter(ast.NodeTransformer):
     def visit_Lambda(self, node):
         return self._visit_scope(node, _bound_names(node))
 
+    def visit_ClassDef(self, node):
+        # Assignment expressions are not allowed in comprehensions of a class
+        # body, and would leave their targets in the class namespace
+        self.no_walrus += 1
+        try:
+            return self.generic_visit(node)
+        finally:
+            self.no_walrus -= 1
+
+    def visit_GeneratorExp(self, node):
+        # A generator expression runs later, possibly interleaved with
+        # others made at the same place: its call sites keep their
+        # temporaries to themselves
+        self.no_walrus += 1
+        try:
+            return self.generic_visit(node)
+        finally:
+            self.no_walrus -= 1
+
     def visit_comprehension(self, node):
         # Python does not allow assignment expressions in the iterable of a
         # comprehension: call sites there are rewritten without them
@@ -602,6 +621,11 @@ class NameConverter(ast.NodeTransformer):
         cn = node.func.id == self.call_next_sym
         tmp = f"__TMP{next(self.count)}_"
 
+        def tmpname(key):
+            # (ends in __: not mangled by a class statement)
+            return f"{tmp}{key}__"
+
+
         written = None
         if cn:
             # call_next(x=e), where x names a positional parameter, is
@@ -657,11 +681,11 @@ class NameConverter(ast.NodeTransformer):
             self.lookup_keys.add(key)
             if written is None:
                 value = ast.NamedExpr(
-                    target=ast.Name(id=f"{tmp}{key}", ctx=ast.Store()),
+                    target=ast.Name(id=tmpname(key), ctx=ast.Store()),
                     value=self.visit(arg),
                 )
             else:
-                value = ast.Name(id=f"{tmp}{key}", ctx=ast.Load())
+                value = ast.Name(id=tmpname(key), ctx=ast.Load())
             func = ast.Name(id=name, ctx=ast.Load())
             return ast.Call(
                 func=func,
@@ -694,7 +718,7 @@ class NameConverter(ast.NodeTransformer):
             evaluated = ast.Tuple(
                 elts=[
                     ast.NamedExpr(
-                        target=ast.Name(id=f"{tmp}{key}", ctx=ast.Store()),
+                        target=ast.Name(id=tmpname(key), ctx=ast.Store()),
                         value=self.visit(arg),
                     )
                     for key, arg in written
@@ -720,13 +744,13 @@ class NameConverter(ast.NodeTransformer):
             func=method,
             args=selfarg
             + [
-                ast.Name(id=f"{tmp}{i}", ctx=ast.Load())
+                ast.Name(id=tmpname(i), ctx=ast.Load())
                 for i, arg in enumerate(node.args)
             ],
             keywords=[
                 ast.keyword(
                     arg=kw.arg,
-                    value=ast.Name(id=f"{tmp}{kw.arg}", ctx=ast.Load()),
+                    value=ast.Name(id=tmpname(kw.arg), ctx=ast.Load()),
                 )
                 for kw in node.keywords
             ],
@@ -734,7 +758,7 @@ class NameConverter(ast.NodeTransformer):
         if lam:
             # (lambda tmp_a, tmp_b: MAP[key](tmp_a, tmp_b))(tmp_a=a, tmp_b=b):
             # the arguments are still evaluated once, in the order written
-            names = [f"{tmp}{key}" for key, _ in written]
+            names = [tmpname(key) for key, _ in written]
             new_node = ast.Call(
                 func=ast.Lambda(
                     args=ast.arguments(
